@@ -191,6 +191,14 @@ class C02Oracle(Oracle):
             return False
         if op["op"] in ("transfer",) and not self.world["worklist"]["auto_split"]:
             return False
+        if op["op"] in ("evo_aspirate", "evo_dispense"):
+            # wells or tips in another than ascending order are (wells) or may be (tips) a reason for refusal of
+            # their own; which of two reasons is reported first is the implementation's choice
+            w = op["wells"] if isinstance(op["wells"], list) else [op["wells"]]
+            rows = [x[0] for x in w]
+            tips = [int(t["tip"][1:]) if isinstance(t, dict) else t for t in (op["tips"] if isinstance(op["tips"], list) else [op["tips"]])]
+            if rows != sorted(set(rows)) or tips != sorted(set(tips)) or len(tips) != len(w):
+                return False
         if op["op"] in ("aspirate", "dispense", "evo_aspirate", "evo_dispense", "distribute"):
             # a single step above the worklist max_volume or the format range is refused for that reason
             return False if self.any_above(op) else True
